@@ -17,6 +17,7 @@ package validation
 import (
 	"crypto/tls"
 	"fmt"
+	"net/url"
 	"strings"
 
 	apimachineryvalidation "k8s.io/apimachinery/pkg/api/validation"
@@ -70,6 +71,8 @@ func ValidateServers(servers []proxyv1alpha1.UpstreamClusterServer, fldPath *fie
 		scheme := getURLScheme(servers[i].Endpoint)
 		if len(scheme) == 0 {
 			allErrs = append(allErrs, field.Invalid(fldPath.Child("servers").Index(i), s, "endpoint must supply http(s) schema"))
+		} else if _, err := url.Parse(servers[i].Endpoint); err != nil {
+			allErrs = append(allErrs, field.Invalid(fldPath.Child("servers").Index(i), s, "endpoint must be a valid URL: "+err.Error()))
 		} else {
 			schemes.Insert(scheme)
 		}
